@@ -392,7 +392,9 @@ fn list_inhabited(
                         return Ok(ListInhabited::Yes);
                     }
                     if items.is_empty(builder)? {
-                        break;
+                        // the rest type has no value: no list is longer than the prefix,
+                        // and the lists of exactly that length were tried above
+                        return Ok(ListInhabited::No);
                     }
                     shorter.push(items.clone());
                 }
